@@ -56,10 +56,14 @@ pub fn gen_contents(rng: &mut Rng, n: usize, max_len: usize, srcs: &[SrcKind], c
             } else {
                 *rng.pick(&[Hint::Yes, Hint::Yes, Hint::No, Hint::Detect])
             };
+            let src = *rng.pick(srcs);
+            // a partly consumed reader is only handed over with hints whose path re-positions the
+            // stream itself (raw copy, entropy detection)
+            let hint = if src == SrcKind::FilePeeked && hint == Hint::Yes { Hint::No } else { hint };
             ContentSpec {
                 bytes: Arc::new(gen::gen_bytes(rng, i, len, flavor)),
                 hint,
-                src: *rng.pick(srcs),
+                src,
                 pack: 1,
             }
         })
@@ -306,7 +310,7 @@ impl TCheck for C08 {
         let mut rng = Rng::derive(seed, "c08-work", work);
         let comp = *rng.pick(&[Comp::Zstd(3), Comp::Zstd(-5), Comp::Lz4(3), Comp::Lzma(1), Comp::Zstd(5), Comp::None]);
         let n = rng.range(1, 40) as usize;
-        let srcs = [SrcKind::Cursor, SrcKind::Cursor, SrcKind::Sim, SrcKind::File, SrcKind::FileRange];
+        let srcs = [SrcKind::Cursor, SrcKind::Cursor, SrcKind::Sim, SrcKind::File, SrcKind::FileRange, SrcKind::FilePeeked, SrcKind::FileRangeToEnd];
         let contents = gen_contents(&mut rng, n, 600, &srcs, comp);
         let workers = rng.range(1, 15);
         let max_blobs = rng.range(1, 6);
@@ -335,7 +339,7 @@ impl TCheck for C08 {
             dedup: false,
             hard_err_call,
         });
-        let desc = json!({"hard_input_error_at_read_call": hard_err_call, "comp": comp.name(), "contents": w.contents.iter().map(|c| format!("{}{}{}", c.bytes.len(), match c.hint {Hint::Yes=>"Y",Hint::No=>"N",Hint::Detect=>"D"}, match c.src {SrcKind::Cursor=>"c",SrcKind::File=>"f",SrcKind::FileRange=>"r",SrcKind::Sim=>"s"})).collect::<Vec<_>>(),
+        let desc = json!({"hard_input_error_at_read_call": hard_err_call, "comp": comp.name(), "contents": w.contents.iter().map(|c| format!("{}{}{}", c.bytes.len(), match c.hint {Hint::Yes=>"Y",Hint::No=>"N",Hint::Detect=>"D"}, match c.src {SrcKind::Cursor=>"c",SrcKind::File=>"f",SrcKind::FileRange=>"r",SrcKind::Sim=>"s",SrcKind::FilePeeked=>"p",SrcKind::FileRangeToEnd=>"e"})).collect::<Vec<_>>(),
                           "workers": workers, "cluster_max_blobs": max_blobs, "cluster_max_size": max_size});
         let w2 = Arc::clone(&w);
         Prepared {
